@@ -87,6 +87,10 @@ def run(ctx):
         for ci in range(n):
             hdr = gen.header(rng, n=rng.choice([1, 2, 3]))
             T = gen.table(rng, hdr, default_pool=CELLS, maxn=5, ragged=0.3)
+            if ci % 25 == 7:
+                # a header without fields (etl.empty(), a blank file), with and without (over-long) data rows
+                hdr = []
+                T = [[]] + [[rng.choice(CELLS)] for _ in range(rng.choice([0, 0, 2]))]
             nt = len(T) > 1
             wh = rng.random() < 0.7
             enc = rng.choice(['utf-8', 'utf-8', 'utf-16', 'latin-1'])
@@ -100,8 +104,20 @@ def run(ctx):
                 kw['quotechar'] = "'"
             compare('teecsv', T, lambda p: etl.teecsv(T, p, encoding=enc, write_header=wh, **kw),
                     lambda p: etl.tocsv(T, p, encoding=enc, write_header=wh, **kw), dict(write_header=wh, encoding=enc, csvargs=repr(kw)), nt)
-            compare('teetsv', T, lambda p: etl.teetsv(T, p, encoding=enc, write_header=wh),
-                    lambda p: etl.totsv(T, p, encoding=enc, write_header=wh), dict(write_header=wh, encoding=enc), nt)
+            tkw = {}
+            if rng.random() < 0.5:
+                # teetsv/totsv take the csv arguments too: the dialect (by name, class or instance) and single settings
+                import csv as _csv
+                class _Semi(_csv.excel):
+                    delimiter = ';'
+                tkw = rng.choice([{'dialect': 'unix'}, {'dialect': _csv.excel}, {'dialect': _Semi}, {'dialect': _Semi()}, {'quoting': _csv.QUOTE_ALL},
+                                  {'dialect': 'excel-tab', 'quotechar': "'"}, {'lineterminator': '\n'}])
+            compare('teetsv', T, lambda p: etl.teetsv(T, p, encoding=enc, write_header=wh, **tkw),
+                    lambda p: etl.totsv(T, p, encoding=enc, write_header=wh, **tkw), dict(write_header=wh, encoding=enc, csvargs=repr(tkw)), nt)
+            if 'dialect' not in kw and rng.random() < 0.3:
+                dk = dict(kw, dialect=rng.choice(['unix', 'excel-tab']))
+                compare('teecsv', T, lambda p: etl.teecsv(T, p, encoding=enc, write_header=wh, **dk),
+                        lambda p: etl.tocsv(T, p, encoding=enc, write_header=wh, **dk), dict(write_header=wh, encoding=enc, csvargs=repr(dk)), nt)
             proto_ = rng.choice([-1, 0, 2])
             compare('teepickle', T, lambda p: etl.teepickle(T, p, protocol=proto_, write_header=wh),
                     lambda p: etl.topickle(T, p, protocol=proto_, write_header=wh), dict(write_header=wh, protocol=proto_), nt)
